@@ -167,7 +167,7 @@ Lemma app_roundtrip_after_devgas_history : forall c F env h t s ops W0, cfg_ok c
 Proof.
   intros c F env h t s ops W0 Hc Hf W s1.
   assert (Hr : c_dg_upd c = DgUpdKeep).
-  { unfold cfg_ok in Hc. apply andb_true_iff in Hc. destruct Hc as [_ Hc]. destruct (c_dg_upd c); [reflexivity | discriminate | discriminate]. }
+  { exact (proj1 (proj2 (cfg_ok_parts c Hc))). }
   subst s1. rewrite Hr.
   exact (state_equiv_strict c F env h t _ Hc (app_wf_after_devgas_history F env s ops W0 Hf W)).
 Qed.
